@@ -30,11 +30,25 @@ judged on what SimGitHub most recently SERVED TO CI (CI cannot know the world's 
   * history: CI was not told of a successful merge into that branch since it last looked at the branch ref
     (<= 1 merge per target-branch observation).  A merge that was applied while CI received an error for it
     (fault net.github_ack_lost) does not arm this check (CI cannot know); it is only counted as a probe.
+  * lost notification (signature notified_change_ignored/<labels|review|checks>): the world has forbidden the merge
+    on that aspect since event c; after c CI was notified (a webhook handler or the periodic update called
+    notify_github_changed / update on that branch); the update-loop iteration that merges began after that
+    notification; and CI did not even start a refresh of the branch between the notification and the PUT.  The loop
+    is observed (never altered) through wrappers on the WatchedBranch instance.  Sound on the original loop: an
+    iteration that begins with github_changed set starts with a refresh.  Not judged: a refresh that started and
+    failed, and a notification that arrives while the merging iteration is already under way.
 On top of that, a label / review / check / batch problem is reported only if the WORLD agrees on that aspect at the
 instant of the merge (the PR really carries a do-not-merge label / is not approved / has a non-successful required
 check on the merged head / has no successful test batch of that head against the branch's current commit): then the
 property text is violated literally and staleness does not excuse it.  Served-bad but world-good merges are counted
 as probes lucky_merge:*; served-good but world-bad merges (legal races) as merged_on_stale_but_served_state.
+
+Per-run knobs added for histories that seeded changes C30-1..3 need: GitHub speed (a leg takes up to 6 ms / 0.24 s /
+2.4 s, so a refresh of a branch lasts ms to tens of seconds and webhooks land inside it); "hot" developers who act a
+moment after CI was served their PR's state; partial GitHub incidents (fault net.github_outage: the ref read, the
+REST reads, GraphQL, or all reads answer 503 for 30-600 s while statuses and merges work) starting right after a
+merge or at seeded times; 11-25 check contexts on every head in a quarter of the runs (StatusContext / CheckRun,
+required or not), the external ones mostly behind the first GraphQL page of 10.
 
 Choices made: "dismiss stale reviews" is a per-run knob (push resets an approval to REVIEW_REQUIRED or keeps it);
 SimGitHub enforces no branch protection (it refuses only a stale `sha`, a merge conflict, or a closed PR), so the
@@ -56,7 +70,10 @@ HAIL_REPO_ROOT), 1600 quick-tier runs each; number of violating runs and first s
   M10 is_mergeable does not look at review_state                  358  C30/merged/not_approved/ci_view_agrees
   M11 _update_batch query uses pr= instead of source_sha=          88  C30/merged/batch_for_other_source
   M12 CHANGES_REQUESTED mapped to 'approved'                      152  C30/merged/not_approved/ci_view_differs
-All twelve were caught.  (M7 shows that the assertion in is_mergeable is load-bearing: after _start_build the PR
+All twelve were caught.  Seeded changes (tools/run_seeded.py, quick tier; violating runs out of 8000):
+  C30-1 try_to_merge keeps the branch sha after a merge     44  C30/merged/second_merge_without_reobserving_target
+  C30-2 only the first GraphQL page of contexts recorded   342  C30/merged/required_check_not_success/ci_view_differs
+  C30-3 github_changed cleared after the refresh             9  C30/merged/notified_change_ignored/{labels,review}  (M7 shows that the assertion in is_mergeable is load-bearing: after _start_build the PR
 holds a fresh running batch with the right target_sha while last_known_github_status still says SUCCESS.)
 
 Findings on the unchanged tree (genuine, see the replays; one root cause): PR.update_from_gh_json resets batch /
@@ -94,7 +111,9 @@ RULE = ('1-2 watched branches x 2-4 pull requests; per pull request 1-5 (thoroug
         'gaps of 0-675 s, 0-3 external checks (status contexts / check runs, required or not) reported per head at '
         'seeded times with re-runs, 0-2 pushes per target branch, batch durations 10-1810 s with seeded outcome, '
         'per-run fault plan (GitHub/batch transient errors, webhook drop/dup/delay, merge ack loss, git failures, '
-        'merge conflicts), periodic update every 300 s, heal phase of 3000 s')
+        'merge conflicts, partial GitHub incidents after merges / at seeded times), GitHub leg latency <= 6 ms / 0.24 s / '
+        '2.4 s per run, developers acting right after their PR was served, 11-25 check contexts per head in a quarter of '
+        'the runs, periodic update every 300 s, heal phase of 3000 s')
 COMPONENTS = {
     'ci.github (WatchedBranch, PR: _update, _update_github, _update_batch, _heal, try_to_merge, is_mergeable, '
     'is_up_to_date, merge)': 'real',
@@ -200,7 +219,7 @@ class World:
             typename = 'CheckRun' if cfg.draw(6) == 5 else 'StatusContext'
             required = cfg.draw(4) != 3
             self.ext_checks.append((f'ext{i}', typename, required))
-        self.many_checks = cfg.draw(8) == 7
+        self.many_checks = cfg.draw(4) == 3
         self.p_gh_err = cfg.pick([0.0, 0.01, 0.03, 0.1])
         self.p_drop = cfg.pick([0.0, 0.1, 0.3])
         self.p_dup = cfg.pick([0.0, 0.1, 0.3])
@@ -211,6 +230,19 @@ class World:
         self.p_conflict = cfg.pick([0.0, 0.05, 0.15])
         self.max_actions = 8 if self.thorough else 5
         self.boot_delay = cfg.draw(4) * 75.0
+        # more than one GraphQL page of contexts (page size 10): 11..25 contexts, the external ones mostly behind page 1
+        self.n_bulk = cfg.rint(10, 22) if self.many_checks else 0
+        self.bulk_first = cfg.draw(4) != 3
+        if self.many_checks and not any(c[2] for c in self.ext_checks):
+            self.ext_checks.append((f'ext{len(self.ext_checks)}', 'StatusContext', True))
+        self.gh_slow = cfg.pick([1, 1, 40, 400])          # GitHub leg latency up to 6 ms / 0.24 s / 2.4 s
+        self.p_outage = cfg.pick([0.0, 0.0, 0.4, 0.8])    # partial GitHub incident after a merge / at seeded times
+        self.p_hot = cfg.pick([0.0, 0.3, 0.6])            # developer acts right after CI was served the PR's state
+        self.outage_until = {}
+        self.served_waiters = {}
+        self.tseq = 0
+        self.bad_since = {}
+        self.mon = {}
 
         self.s_hook = ctx.stream('lat:webhook')
         self.f_drop = ctx.stream('fault:net.webhook_drop')
@@ -219,6 +251,7 @@ class World:
         self.f_git = ctx.stream('fault:proc.git_fail')
         self.s_git = ctx.stream('lat:git')
         self.s_conflict = ctx.stream('conflict')
+        self.f_outage = ctx.stream('fault:net.github_outage')
 
         self.gh = fakes.SimGitHub(self)
         self.batch = fakes.SimBatchService(self)
@@ -240,6 +273,77 @@ class World:
     def _wake(self):
         if self.wake is not None and not self.wake.done():
             self.wake.set_result(None)
+
+    def tk(self):
+        self.tseq += 1
+        return self.tseq
+
+    def touch(self, p):
+        """world bookkeeping: since when (event order) has each GitHub-side aspect of the PR forbidden a merge."""
+        for aspect, bad in (('labels', bool(set(p.labels) & DNM)), ('review', p.review != 'APPROVED'),
+                            ('checks', not self.gh.required_ok(p.head, exclude=(self.ci_context,)))):
+            k = (p.number, aspect)
+            if bad:
+                if k not in self.bad_since:
+                    self.bad_since[k] = self.tk()
+            else:
+                self.bad_since.pop(k, None)
+
+    def checks_served(self, number):
+        for fut in self.served_waiters.pop(number, []):
+            if not fut.done():
+                fut.set_result(None)
+
+    def start_outage(self, why):
+        s = self.f_outage
+        kinds = (('get_ref',), ('get_ref', 'list_pulls'), ('graphql',), ('get_ref', 'list_pulls', 'graphql'))[s.draw(4)]
+        dur = s.rint(1, 20) * 30.0
+        self.ctx.fault('net.github_outage')
+        self.log.add('github', 'outage_begins', why, kinds, dur)
+        for k in kinds:
+            self.outage_until[k] = max(self.outage_until.get(k, 0.0), self.loop.time() + dur)
+
+    def after_merge(self, base):
+        if self.p_outage and not self.healing and self.f_outage.chance(self.p_outage):
+            self.start_outage('after_merge')
+
+    def instrument(self, wb):
+        """observe (never alter) the update loop of one watched branch: order of notifications, refresh starts and
+        loop iterations.  Within `_update` nothing can interleave between the end of one step and the start of the
+        next, so the first step of an iteration marks the instant the loop looked at its flags."""
+        m = self.mon[wb.branch.name] = {'notifies': [], 'refresh_starts': [], 'it_first': 0, 'last_rank': -1}
+        o_update, o_notify, o_full = wb._update, wb.notify_github_changed, wb.update
+
+        async def _update(*a, **k):
+            if not wb.updating:
+                m['last_rank'] = -1
+            return await o_update(*a, **k)
+
+        def step(rank, orig):
+            async def f(*a, **k):
+                sq = self.tk()
+                if rank <= m['last_rank'] or m['last_rank'] < 0:
+                    m['it_first'] = sq
+                m['last_rank'] = rank
+                if rank == 0:
+                    m['refresh_starts'].append(sq)
+                return await orig(*a, **k)
+            return f
+
+        async def notify(*a, **k):
+            m['notifies'].append(self.tk())
+            return await o_notify(*a, **k)
+
+        async def full(*a, **k):
+            m['notifies'].append(self.tk())
+            return await o_full(*a, **k)
+
+        wb._update_github = step(0, wb._update_github)
+        wb._update_batch = step(1, wb._update_batch)
+        wb._heal = step(2, wb._heal)
+        wb._update = _update
+        wb.notify_github_changed = notify
+        wb.update = full
 
     def new_sha(self, prefix):
         self.sha_n += 1
@@ -420,8 +524,10 @@ class World:
         for wb in self.wbs:
             cpr = wb.prs.get(number)
             if cpr is not None:
+                m = self.mon[wb.branch.name]
                 return {'batch': cpr.batch, 'labels': set(cpr.labels), 'review_state': cpr.review_state,
-                        'statuses': {k: v.value for k, v in cpr.last_known_github_status.items()}}
+                        'statuses': {k: v.value for k, v in cpr.last_known_github_status.items()},
+                        'it_first': m['it_first'], 'put_seq': self.tk()}
         return None
 
     def on_merge_put(self, number, sha, refusal, held):
@@ -522,6 +628,22 @@ class World:
             self.ctx.probe('two_prs_green_same_time')
         if any(world_bad.values()) and not problems:
             self.ctx.probe('merged_on_stale_but_served_state')
+        # lost notification: the aspect has forbidden the merge since event c; after c CI was notified (a webhook
+        # handler or the periodic update set github_changed, event w); the loop iteration that merges began after w;
+        # and no refresh of the branch was even started between w and the PUT.  The original loop cannot do that: an
+        # iteration that begins with github_changed set starts with a refresh.  (A refresh that started and failed, or
+        # a notification that arrives while the merging iteration is already under way, is not judged.)
+        m = self.mon.get(base)
+        if m is not None and held is not None:
+            for aspect in ('labels', 'review', 'checks'):
+                c = self.bad_since.get((number, aspect))
+                if not world_bad[aspect] or c is None or any(a == aspect for a, _, _ in problems):
+                    continue
+                ws = [w for w in m['notifies'] if c < w < held['it_first']]
+                if ws and not any(ws[-1] < r < held['put_seq'] for r in m['refresh_starts']):
+                    problems.append((None, f'notified_change_ignored/{aspect}',
+                                     f'{aspect} = {world_bad[aspect]} in the world; CI was notified after that change '
+                                     f'and merged from a later update-loop iteration without starting a refresh'))
         real = []
         for aspect, sig, detail in problems:
             if aspect is None or world_bad[aspect]:
@@ -543,11 +665,16 @@ class World:
     async def checks_actor(self, p, sha):
         s = self.ctx.stream(f'checks:pr{p.number}')
         gh = self.gh
+        def bulk():
+            for i in range(self.n_bulk):
+                gh.set_ctx(sha, 'CheckRun' if i % 3 == 0 else 'StatusContext', f'bulk{i:02d}', 'SUCCESS', i % 2 == 0)
+        if self.bulk_first:
+            bulk()
         for name, typename, required in self.ext_checks:
             gh.set_ctx(sha, typename, name, 'PENDING' if typename == 'StatusContext' else None, required)
-        if self.many_checks:
-            for i in range(10):
-                gh.set_ctx(sha, 'StatusContext', f'bulk{i}', 'SUCCESS', i % 2 == 0)
+        if not self.bulk_first:
+            bulk()
+        self.touch(p)
         for name, typename, required in self.ext_checks:
             rounds = 1 + (1 if s.chance(0.1) else 0)
             for r in range(rounds):
@@ -558,12 +685,14 @@ class World:
                 else:
                     state = ('SUCCESS', 'FAILURE', 'TIMED_OUT')[k]
                 gh.set_ctx(sha, typename, name, state, required)
+                self.touch(p)
                 self.log.add('checks', 'report', p.number, sha, name, state)
                 if k and not required:
                     self.ctx.probe('nonrequired_check_failed')
                 if r + 1 < rounds:
                     await asyncio.sleep(s.draw(8) * 25.0)
                     gh.set_ctx(sha, typename, name, 'PENDING' if typename == 'StatusContext' else None, required)
+                    self.touch(p)
                     self.log.add('checks', 'rerun', p.number, sha, name)
 
     async def pr_actor(self, number, base):
@@ -578,6 +707,7 @@ class World:
                             None if self.no_review_rule else 'REVIEW_REQUIRED')
         gh.prs[number] = p
         self.log.add('dev', 'open', number, base, head, author, tuple(labels))
+        self.touch(p)
         self.spawn('checks', lambda: self.checks_actor(p, head))
         self.webhook('pull_request', self.pr_event(p, 'opened'))
         n_actions = s.rint(1, self.max_actions)
@@ -588,7 +718,20 @@ class World:
                 await asyncio.sleep(s.draw(8) * 15.0)
                 k = 0
             else:
-                await asyncio.sleep(s.draw(16) * 45.0)
+                gap = s.draw(16) * 45.0
+                if self.p_hot and s.chance(self.p_hot):
+                    # act right after CI has been served this PR's review decision and checks (possibly while that
+                    # refresh of the branch is still in flight), at the latest when the gap is over
+                    fut = self.loop.create_future()
+                    self.served_waiters.setdefault(number, []).append(fut)
+                    try:
+                        await asyncio.wait_for(fut, timeout=gap + 1.0)
+                        self.ctx.probe('hot_action')
+                        await asyncio.sleep(s.draw(9) * 0.25)
+                    except asyncio.TimeoutError:
+                        pass
+                else:
+                    await asyncio.sleep(gap)
                 k = s.weighted([5, 3, 2, 2, 1, 1, 1, 1, 1, 1])
             if p.state != 'open':
                 return
@@ -658,6 +801,13 @@ class World:
                 self.log.add('dev', 'close', number)
                 self.webhook('pull_request', self.pr_event(p, 'closed'))
                 return
+            self.touch(p)      # no await since the action: the bookkeeping precedes the webhook's delivery
+
+    async def outage_actor(self):
+        s = self.ctx.stream('dev:outages')
+        for _ in range(s.draw(3)):
+            await asyncio.sleep(s.draw(40) * 60.0)
+            self.start_outage('incident')
 
     async def target_actor(self, base):
         s = self.ctx.stream(f'dev:target:{base}')
@@ -685,9 +835,12 @@ class World:
                     for i, b in enumerate(self.branches)]
         self.wb_by_branch = {wb.branch.name: wb for wb in self.wbs}
         C.watched_branches = self.wbs
+        for wb in self.wbs:
+            self.instrument(wb)
         self.log.add('world', 'config', tuple(self.branches), tuple(self.n_prs[b] for b in self.branches),
                      tuple(self.ext_checks), int(self.dismiss_stale), int(self.ci_ctx_required),
-                     int(self.deployable0), int(self.no_review_rule), int(self.many_checks),
+                     int(self.deployable0), int(self.no_review_rule), self.n_bulk, int(self.bulk_first),
+                     self.gh_slow, self.p_outage, self.p_hot,
                      (self.p_gh_err, self.p_drop, self.p_dup, self.p_delay, self.p_batch_err, self.p_ack_lost,
                       self.p_git_fail, self.p_conflict))
 
@@ -701,6 +854,8 @@ class World:
             for i in range(self.n_prs[b]):
                 actors.append(asyncio.ensure_future(self.pr_actor(10 * (bi + 1) + i, b)))
             actors.append(asyncio.ensure_future(self.target_actor(b)))
+        if self.p_outage:
+            actors.append(asyncio.ensure_future(self.outage_actor()))
         update_task = asyncio.ensure_future(self._guard('update_loop', boot))
         all_actors = asyncio.gather(*actors)
         try:
